@@ -104,6 +104,7 @@ class State:
         self.created_default: T.Dict[str, str] = {}
         self.user: T.Dict[str, str] = {}
         self.record: T.Dict[str, str] = {}
+        self.gone: T.Set[str] = set()
 
 
 def key(sub: str, name: str) -> str:
@@ -115,6 +116,10 @@ class Model:
         self.files: T.Dict[str, Files] = {'': dict(top), 'sub': dict(sub)}
         self.st = State()
         self.tree_exists = False       # build directory has been created (maybe emptied by a failed wipe)
+
+    def vanished(self) -> T.List[str]:
+        """Options that existed at some point and must not exist in the store now."""
+        return sorted(self.st.gone - set(self.keys()))
 
     # ---- helpers --------------------------------------------------------------------
     def _spec_for(self, k: str, applied: T.Dict[str, Files]) -> T.Optional[Spec]:
@@ -147,6 +152,7 @@ class Model:
                     k = key(sub, name)
                     st.user.pop(k, None)
                     st.created_default.pop(k, None)
+                    st.gone.add(k)
             st.applied[sub] = {n: copy.deepcopy(s) for n, s in new.items()}
 
     def _check_assign(self, assign: T.Mapping[str, str], applied: T.Dict[str, Files]) -> bool:
